@@ -1,0 +1,51 @@
+//go:build verif
+
+package workers
+
+import (
+	"log/slog"
+
+	"reduction.dev/reduction-protocol/jobconfigpb"
+	"reduction.dev/reduction/connectors"
+	"reduction.dev/reduction/workers/operator"
+	"reduction.dev/reduction/workers/sourcerunner"
+)
+
+// VerifNewC01 builds a Worker exactly like New, but lets the verification harness (build tag verif only)
+// supply the source reader factory (a scripted source) and fixed node ids, so that the order of the nodes in
+// an assembly is reproducible.
+func VerifNewC01(params NewParams, operatorID, sourceRunnerID string,
+	sourceReaderFactory func(*jobconfigpb.Source) connectors.SourceReader) *Worker {
+	sourceRunner := sourcerunner.New(sourcerunner.NewParams{
+		Host:                params.Host,
+		UserHandler:         params.Handler,
+		Job:                 params.Job,
+		OperatorFactory:     params.OperatorFactory,
+		EventBatching:       params.EventBatching,
+		Clock:               params.Clock,
+		SourceReaderFactory: sourceReaderFactory,
+	})
+	sourceRunner.ID = sourceRunnerID
+
+	op := operator.NewOperator(operator.NewOperatorParams{
+		ID:                      operatorID,
+		Host:                    params.Host,
+		Job:                     params.Job,
+		UserHandler:             params.Handler,
+		Clock:                   params.Clock,
+		EventBatching:           params.EventBatching,
+		NeighborOperatorFactory: params.OperatorFactory,
+	})
+
+	if params.LogPrefix == "" {
+		params.LogPrefix = "worker"
+	}
+
+	return &Worker{
+		SourceRunner: sourceRunner,
+		Operator:     op,
+		job:          params.Job,
+		diagnostics:  params.Diagnostics,
+		log:          slog.With("instanceID", params.LogPrefix),
+	}
+}
